@@ -27,6 +27,22 @@ static inline void emit0(const std::string& cid, const std::string& key, const s
     if (g_rank == 0) { printf("%s %s %s\n", cid.c_str(), key.c_str(), text.c_str()); fflush(stdout); }
 }
 
+// after a case: has everything that was sent been received?  A message nobody receives stays queued and is matched by a later
+// operation that uses the same tag.  Returns the number of messages found waiting on this rank (they are received and dropped).
+static inline int drain_stray() {
+    int n = 0;
+    for (int round = 0; round < 3; round++) {
+        MPI_Barrier(MPI_COMM_WORLD);
+        int flag = 1; MPI_Status st;
+        while (flag) {
+            MPI_Iprobe(MPI_ANY_SOURCE, MPI_ANY_TAG, MPI_COMM_WORLD, &flag, &st);
+            if (flag) { int cnt = 0; MPI_Get_count(&st, MPI_BYTE, &cnt); std::vector<char> b(cnt + 1);
+                MPI_Recv(b.data(), cnt, MPI_BYTE, st.MPI_SOURCE, st.MPI_TAG, MPI_COMM_WORLD, MPI_STATUS_IGNORE); n++; }
+        }
+    }
+    return n;
+}
+
 // distributed matrix literal:  nr nc  P first_rows[P+1] first_cols[P+1]  nnz (i j v)*     (P = 0: default partition)
 struct ParLit {
     int nr, nc, P; std::vector<int> frow, fcol; int nnz; std::vector<int> ti, tj; std::vector<double> tv;
